@@ -1,7 +1,7 @@
 """Seeded generator of full-stack scenarios (see harness/scenario.py for the spec format)."""
 from . import common as C
 
-ACTS_COMMON = [{'act': 'drop'}, {'act': 'close'}, {'act': 'reset'}, {'act': 'garbage'}, {'act': 'exc'}]
+ACTS_COMMON = [{'act': 'drop'}, {'act': 'close'}, {'act': 'reset'}, {'act': 'garbage'}, {'act': 'exc'}, {'act': 'null'}]
 ACTS_MUX = [{'act': 'dup'}, {'act': 'bogus', 'bogus_tag': 1}, {'act': 'bogus', 'bogus_tag': 7}, {'act': 'rerr'}]
 
 
